@@ -88,6 +88,18 @@ var srcTargets = []srcTarget{
 	{Group: "ValidateClaims", Recv: "User", Name: "Validate", Only: "V2"},
 	{Group: "ValidateClaims", Recv: "UserClaims", Name: "Validate", Only: "V2"},
 	{Group: "ValidateClaims", Recv: "ExternalAuthorization", Name: "Validate", Only: "V2"},
+	{Group: "ValidateClaims", Recv: "Info", Name: "Validate", Only: "V2"},
+	{Group: "ValidateClaims", Recv: "SigningKeys", Name: "Validate", Only: "V2"},
+	{Group: "ValidateClaims", Recv: "OperatorLimits", Name: "IsEmpty", Only: "V2"},
+	{Group: "ValidateClaims", Recv: "Account", Name: "Validate", Only: "V2"},
+	{Group: "ValidateClaims", Recv: "AccountClaims", Name: "Validate", Only: "V2"},
+	{Group: "ValidateClaims", Recv: "UserScope", Name: "Validate", Only: "V2"},
+	{Group: "ValidateClaims", Recv: "Operator", Name: "validateAccountServerURL", Only: "V2"},
+	{Group: "ValidateClaims", Name: "ValidateOperatorServiceURL", Only: "V2"},
+	{Group: "ValidateClaims", Recv: "Operator", Name: "validateOperatorServiceURLs", Only: "V2"},
+	{Group: "ValidateClaims", Name: "ParseServerVersion", Only: "V2"},
+	{Group: "ValidateClaims", Recv: "Operator", Name: "Validate", Only: "V2"},
+	{Group: "ValidateClaims", Recv: "OperatorClaims", Name: "Validate", Only: "V2"},
 	{Group: "Decode", Recv: "Header", Name: "Valid", Only: "V2"},
 	{Group: "Decode", Recv: "identifier", Name: "Kind", Only: "V2"},
 	{Group: "Decode", Recv: "identifier", Name: "Version", Only: "V2"},
@@ -188,6 +200,7 @@ type tr struct {
 	wrap       func(string) string     // a Go result -> the complete return value (adds the updated receiver)
 	vr         types.Object            // a *ValidationResults parameter: the list of issues so far, returned extended
 	returnsVr  map[types.Object]bool   // translated functions that take and return the issue list
+	localVR    map[types.Object]bool   // local variables holding validation results of their own (tvr := CreateValidationResults())
 	myAbs      []absParam              // this function's observations of its own receiver
 	paramRoot  map[string]int          // abstract parameters: name -> position
 	effects    bool                    // the body assigns fields of abstract values or calls their methods for effect
@@ -794,6 +807,12 @@ func isTimeNow(t *tr, e ast.Expr) bool {
 // called on, of abstract arguments - re-rooted at what the caller passes), then the explicit arguments (abstract ones
 // are not passed: they are known through observations only)
 func (t *tr) knownArgs(x *ast.CallExpr, o types.Object, recvPrefix string) []string {
+	obs, args := t.knownArgs2(x, o, recvPrefix)
+	return append(obs, args...)
+}
+
+// knownArgs2: the callee's observations, and the call's own arguments, apart
+func (t *tr) knownArgs2(x *ast.CallExpr, o types.Object, recvPrefix string) ([]string, []string) {
 	var as []string
 	for _, ap := range t.absParams[o] {
 		switch {
@@ -827,13 +846,14 @@ func (t *tr) knownArgs(x *ast.CallExpr, o types.Object, recvPrefix string) []str
 		}
 	}
 	sig := o.Type().(*types.Signature)
+	var rest []string
 	for i, a := range x.Args {
 		if i < sig.Params().Len() && isAbstractParam(sig.Params().At(i).Type()) {
 			continue
 		}
-		as = append(as, t.expr(a))
+		rest = append(rest, t.expr(a))
 	}
-	return as
+	return as, rest
 }
 
 // litObs: an observation of an argument that is the address of a struct literal (&Header{a, b}): it is not nil and
@@ -1072,6 +1092,9 @@ func (t *tr) call(x *ast.CallExpr) string {
 		}
 		t.fail(x, "call of %s", f.Name)
 	case *ast.SelectorExpr:
+		if id, ok := f.X.(*ast.Ident); ok && !implResults && t.isVRObj(t.info.Uses[id]) && f.Sel.Name == "IsEmpty" && len(x.Args) == 0 {
+			return "((go_llen " + t.names[t.info.Uses[id]] + ") =? (0)%Z)%Z" // (ValidationResults.IsEmpty, translated and proved in the Results group)
+		}
 		if id, ok := f.X.(*ast.Ident); ok {
 			if pn, ok := t.info.Uses[id].(*types.PkgName); ok {
 				full := pn.Imported().Path() + "." + f.Sel.Name
@@ -1235,8 +1258,9 @@ func (t *tr) call(x *ast.CallExpr) string {
 					// a translated method of an abstract value: its observations become ours, under our name for the value
 					return "(" + n + " " + valArgs(sel.Obj()) + strings.Join(t.knownArgs(x, sel.Obj(), prefix), " ") + ")"
 				}
-				// a value receiver: the receiver itself first, then the callee's observations, then the arguments
-				as := append([]string{t.expr(f.X)}, t.knownArgs(x, sel.Obj(), "")...)
+				// a value receiver: the callee's observations of the world first, then the receiver itself, then the arguments
+				obs, rest := t.knownArgs2(x, sel.Obj(), "")
+				as := append(append(obs, t.expr(f.X)), rest...)
 				return "(" + n + " " + valArgs(sel.Obj()) + strings.Join(as, " ") + ")"
 			}
 			// an untranslated method of an abstract value, with arguments: an unknown function of the arguments
@@ -1364,12 +1388,12 @@ func (t *tr) assigned(n ast.Node) []*types.Var {
 					if sel, ok := t.info.Selections[f]; ok && t.mutates[sel.Obj()] {
 						add(f.X)
 					}
-					if id, ok := f.X.(*ast.Ident); ok && t.vr != nil && t.info.Uses[id] == t.vr {
+					if id, ok := f.X.(*ast.Ident); ok && t.isVRObj(t.info.Uses[id]) {
 						add(f.X) // vr.AddError(...)
 					}
 				}
 				for _, a := range c.Args {
-					if id, ok := a.(*ast.Ident); ok && t.vr != nil && t.info.Uses[id] == t.vr {
+					if id, ok := a.(*ast.Ident); ok && t.isVRObj(t.info.Uses[id]) {
 						add(a) // f(..., vr)
 					}
 				}
@@ -1581,6 +1605,21 @@ func (t *tr) block0(stmts []ast.Stmt, c sctx, ind string) string {
 		}
 		return out + t.block(rest, c, ind)
 	case *ast.AssignStmt:
+		// tvr := CreateValidationResults(): results of the function's own, empty to begin with
+		if !implResults && len(x.Lhs) == 1 && len(x.Rhs) == 1 && x.Tok == token.DEFINE {
+			if call, ok := x.Rhs[0].(*ast.CallExpr); ok && len(call.Args) == 0 && isVR(t.info.TypeOf(call)) {
+				if fid, ok := call.Fun.(*ast.Ident); ok && fid.Name == "CreateValidationResults" {
+					if lid, ok := x.Lhs[0].(*ast.Ident); ok && lid.Name != "_" {
+						o := t.info.Defs[lid]
+						if t.localVR == nil {
+							t.localVR = map[types.Object]bool{}
+						}
+						t.localVR[o] = true
+						return "let " + t.bind(o) + " := (@nil go_issue) in" + nl + t.block(rest, c, ind)
+					}
+				}
+			}
+		}
 		// v.Issues = e in the results' own code: the receiver becomes e
 		if implResults && len(x.Lhs) == 1 && len(x.Rhs) == 1 && x.Tok == token.ASSIGN {
 			if sel, ok := x.Lhs[0].(*ast.SelectorExpr); ok && sel.Sel.Name == "Issues" {
@@ -1862,15 +1901,26 @@ func (t *tr) block0(stmts []ast.Stmt, c sctx, ind string) string {
 					return "let " + m + " := (go_mdel " + m + " " + t.expr(call.Args[1]) + ") in" + nl + t.block(rest, c, ind)
 				}
 			}
+			// (a callee that also acts on abstract values hands back its log with the results: it follows ours)
+			bindVr := func(vrn string, o types.Object) string {
+				if effectful[o] && t.logVar != nil {
+					lg := t.names[t.logVar]
+					return "let '(go_l, " + vrn + ") := " + t.call(call) + " in" + nl + "let " + lg + " := (" + lg + " ++ go_l)%list in" + nl + t.block(rest, c, ind)
+				}
+				return "let " + vrn + " := " + t.call(call) + " in" + nl + t.block(rest, c, ind)
+			}
 			if id, ok := call.Fun.(*ast.Ident); ok && t.vr != nil {
-				if fo, ok := t.info.Uses[id].(*types.Func); ok && t.returnsVr[fo] {
-					vrn := t.names[t.vr]
-					return "let " + vrn + " := " + t.call(call) + " in" + nl + t.block(rest, c, ind)
+				if fo, ok := t.info.Uses[id].(*types.Func); ok && t.returnsVr[fo] && t.vrArg(call) != nil {
+					return bindVr(t.names[t.vrArg(call)], fo)
 				}
 			}
 			if f, ok := call.Fun.(*ast.SelectorExpr); ok && t.vr != nil {
 				vrn := t.names[t.vr]
-				if id, ok := f.X.(*ast.Ident); ok && t.info.Uses[id] == t.vr {
+				if va := t.vrArg(call); va != nil {
+					vrn = t.names[va]
+				}
+				if id, ok := f.X.(*ast.Ident); ok && t.isVRObj(t.info.Uses[id]) {
+					vrn = t.names[t.info.Uses[id]]
 					if f.Sel.Name == "Add" && len(call.Args) == 1 {
 						// vr.Add(&issue) for an issue held in a local variable: its flags decide what it is
 						if u, ok := call.Args[0].(*ast.UnaryExpr); ok && u.Op == token.AND {
@@ -1887,7 +1937,7 @@ func (t *tr) block0(stmts []ast.Stmt, c sctx, ind string) string {
 				}
 				if sel, ok := t.info.Selections[f]; ok && t.returnsVr[sel.Obj()] {
 					// a translated method that reports into the same results: it returns them extended
-					return "let " + vrn + " := " + t.call(call) + " in" + nl + t.block(rest, c, ind)
+					return bindVr(vrn, sel.Obj())
 				}
 				// an untranslated method of an abstract value that is handed the results: what it reports is an
 				// observation of that value (a function of the other arguments), appended
@@ -1895,7 +1945,7 @@ func (t *tr) block0(stmts []ast.Stmt, c sctx, ind string) string {
 					var tys, as []string
 					seenVr := false
 					for _, a := range call.Args {
-						if id, ok := a.(*ast.Ident); ok && t.info.Uses[id] == t.vr {
+						if id, ok := a.(*ast.Ident); ok && t.isVRObj(t.info.Uses[id]) {
 							seenVr = true
 							continue
 						}
@@ -2061,13 +2111,28 @@ func (t *tr) isEffectTarget(e ast.Expr) bool {
 	return ok && !strings.HasPrefix(p, "\x00")
 }
 
+// isVRObj: the validation results the function was handed, or results of its own held in a local variable
+func (t *tr) isVRObj(o types.Object) bool {
+	return o != nil && ((t.vr != nil && o == t.vr) || t.localVR[o])
+}
+
+// vrArg: the validation results a call is handed (by name), if any
+func (t *tr) vrArg(c *ast.CallExpr) types.Object {
+	for _, a := range c.Args {
+		if id, ok := a.(*ast.Ident); ok && t.isVRObj(t.info.Uses[id]) {
+			return t.info.Uses[id]
+		}
+	}
+	return nil
+}
+
 // isEffectCall: a method of an abstract receiver or parameter called as a statement (for its effect)
 func (t *tr) isEffectCall(c *ast.CallExpr) bool {
 	f, ok := c.Fun.(*ast.SelectorExpr)
 	if !ok {
 		return false
 	}
-	if id, ok := f.X.(*ast.Ident); ok && t.vr != nil && t.info.Uses[id] == t.vr {
+	if id, ok := f.X.(*ast.Ident); ok && t.isVRObj(t.info.Uses[id]) {
 		return false
 	}
 	if sel, ok := t.info.Selections[f]; ok && (t.known[sel.Obj()] != "" || t.mutates[sel.Obj()]) {
@@ -2078,7 +2143,7 @@ func (t *tr) isEffectCall(c *ast.CallExpr) bool {
 		return false
 	}
 	for _, a := range c.Args {
-		if id, ok := a.(*ast.Ident); ok && t.vr != nil && t.info.Uses[id] == t.vr {
+		if id, ok := a.(*ast.Ident); ok && t.isVRObj(t.info.Uses[id]) {
 			return false
 		}
 	}
@@ -2356,10 +2421,16 @@ func translateFunc(pkg *packages.Package, fd *ast.FuncDecl, coqName string, know
 	}
 	pre := ""
 	if t.effects {
-		if t.mut || t.vr != nil {
-			t.fail(fd, "effects on abstract values together with an updated receiver or validation results")
+		if t.mut {
+			t.fail(fd, "effects on abstract values together with an updated receiver")
 		}
-		if t.resTy == "unit" {
+		if t.vr != nil {
+			// reports into validation results AND acts on abstract values: both come back, the log first
+			vrn := t.names[t.vr]
+			t.retTy = "((list go_event) * (list go_issue))"
+			t.wrap = func(v string) string { return "(go_log, " + vrn + ")" }
+			fall = "(go_log, " + vrn + ")"
+		} else if t.resTy == "unit" {
 			t.retTy = "(list go_event)"
 			t.wrap = func(v string) string { return "go_log" }
 			fall = "go_log"
